@@ -56,8 +56,51 @@ def _class_of_receiver(prog: Program, resolver: Resolver, fi: FuncInfo, recv: as
     return None
 
 
-def location_of(prog: Program, resolver: Resolver, fi: FuncInfo, e: ast.AST) -> Optional[str]:
+_ALIAS_CACHE: Dict[int, Dict[str, List[ast.AST]]] = {}
+
+
+def local_aliases(fi: FuncInfo) -> Dict[str, List[ast.AST]]:
+    """Local name -> the expressions it is bound to by plain (or pairwise tuple) assignment."""
+    c = _ALIAS_CACHE.get(id(fi.node))
+    if c is not None:
+        return c
+    out: Dict[str, List[ast.AST]] = {}
+    for n in Resolver._own_nodes(fi.node):
+        if not isinstance(n, ast.Assign):
+            continue
+        for t in n.targets:
+            if isinstance(t, ast.Name):
+                out.setdefault(t.id, []).append(n.value)
+            elif isinstance(t, (ast.Tuple, ast.List)) and isinstance(n.value, (ast.Tuple, ast.List)) and len(t.elts) == len(n.value.elts):
+                for a, b in zip(t.elts, n.value.elts):
+                    if isinstance(a, ast.Name):
+                        out.setdefault(a.id, []).append(b)
+    _ALIAS_CACHE[id(fi.node)] = out
+    return out
+
+
+def is_alias_binding(n: ast.AST) -> bool:
+    """The Load of a registry that only gives it a local name (`by_name = self._by_name`)."""
+    p = getattr(n, "_parent", None)
+    if isinstance(p, ast.Assign) and p.value is n and all(isinstance(t, ast.Name) for t in p.targets):
+        return True
+    if isinstance(p, (ast.Tuple, ast.List)):
+        pp = getattr(p, "_parent", None)
+        if isinstance(pp, ast.Assign) and pp.value is p and all(isinstance(t, (ast.Tuple, ast.List)) and all(isinstance(x, ast.Name) for x in t.elts)
+                                                                for t in pp.targets):
+            return True
+    return False
+
+
+def location_of(prog: Program, resolver: Resolver, fi: FuncInfo, e: ast.AST, _depth: int = 0) -> Optional[str]:
     """Shared location denoted by expression e (the container itself), or None."""
+    if isinstance(e, ast.Name) and _depth < 3:
+        al = local_aliases(fi).get(e.id)
+        if al and e.id not in fi.params():
+            locs = {location_of(prog, resolver, fi, v, _depth + 1) for v in al if not (isinstance(v, ast.Name) and v.id == e.id)}
+            locs.discard(None)
+            if len(locs) == 1:
+                return locs.pop()
     if isinstance(e, ast.Attribute) and e.attr in REGISTRY_ATTRS:
         c = _class_of_receiver(prog, resolver, fi, e.value)
         return f"{c or '?'}.{e.attr}"
@@ -120,8 +163,10 @@ def reads_in(prog: Program, resolver: Resolver, qual: str) -> List[Tuple[str, as
     out: List[Tuple[str, ast.AST]] = []
     for n in Resolver._own_nodes(fi.node):
         if isinstance(n, (ast.Name, ast.Attribute)) and isinstance(getattr(n, "ctx", None), ast.Load):
+            if is_alias_binding(n):
+                continue   # naming the container is not reading it; uses of the alias are
             loc = location_of(prog, resolver, fi, n)
-            if loc and not (isinstance(n, ast.Name) and False):
+            if loc:
                 out.append((loc, n))
     return out
 
@@ -197,6 +242,16 @@ def handlers_around(fi: FuncInfo, node: ast.AST) -> List[List[str]]:
         child = p
         p = getattr(p, "_parent", None)
     return out
+
+
+def table_aliases(fn: ast.AST, attr: str = "_known") -> Set[str]:
+    """Local names bound to `<x>.<attr>` inside fn (`known = cls._known`)."""
+    return {n.targets[0].id for n in ast.walk(fn) if isinstance(n, ast.Assign) and len(n.targets) == 1
+            and isinstance(n.targets[0], ast.Name) and isinstance(n.value, ast.Attribute) and n.value.attr == attr}
+
+
+def is_table(e: ast.AST, aliases: Set[str], attr: str = "_known") -> bool:
+    return (isinstance(e, ast.Attribute) and e.attr == attr) or (isinstance(e, ast.Name) and e.id in aliases)
 
 
 def raise_sites(prog: Program, qual: str) -> List[RaiseSite]:
